@@ -152,7 +152,12 @@ Step ==
           /\ (~moved) => Report("not-moved", {"entitled"})
           /\ (~reported) => Report("not-moved", {"composite-count"})
           /\ (inv # {}) => Report("inv", inv)
-          /\ s' = o
+          \* resynchronise on the observed state -- except the label arrays when they are NOT equivalent to the specified
+          \* ones: who carries which label is then known from the specification only, and later displacement calls are
+          \* judged against it (a move whose labels have slipped displaces atoms it must not touch)
+          /\ s' = IF "labels" \in d /\ DOMAIN exp.labels = DOMAIN o.labels
+                        /\ \A m \in DOMAIN o.labels : Len(exp.labels[m]) = Len(o.atoms)
+                   THEN [o EXCEPT !.labels = exp.labels] ELSE o
           /\ pre' = IF e.a = "yield" THEN o ELSE pre
           /\ pc' = CASE e.a = "yield" -> "yielded"
                      [] e.a = "call" -> IF e.res THEN "called_true" ELSE "called_false"
